@@ -15,6 +15,10 @@ Units
                       bare CR, missing final line break or 1A, unordered and duplicate lines,
                       lines of exactly 254/255 characters) through LOAD and MERGE against the
                       model of the resulting program
+  history           : a longer program was in memory first (typed / LOADed from B, P, A), is
+                      replaced (NEW+type, LOAD, CHAIN, DELETE, line-by-line, DELETE+MERGE) and the
+                      result saved in each format: differential against a fresh session fed the
+                      final LIST, image model, end-marker structure, re-LOAD
   convert           : pcbasic.main('--convert=X', in, out) for all 9 (from, to) pairs against
                       LOAD + SAVE in a session
 """
@@ -41,6 +45,8 @@ RULE = ("Cipher: all 143 x 256 (position, byte) pairs (exhaustive) and random st
         "0x1A, NUL or 0xFF byte, a line of >= 250 characters, or more than 143 bytes (cipher wraps); "
         "for cipher strings: length > 143.")
 ASSUMPTIONS = [
+    "history unit: one extra trailing 1A per earlier tokenised/protected LOAD in the session is "
+    "tolerated behind the 00 00 end marker (see the resave:grows note); anything else there fails",
     "text program files: empty lines and lines of blanks are ignored, blanks before the line number "
     "are skipped, CR and CR LF both end a line, the final line break and the 1A are optional, lines "
     "up to 255 characters load (GW-BASIC practice; LF-only files are not generated; a 255-character "
@@ -61,6 +67,7 @@ KILLS = [
     "unprotect(): index period 13*11 -> 13 -> cipher.decrypt, cipher.roundtrip, memory.P.load, tokfile.memory.P, convert.P-B/P-P",
     "BinaryFile.close: EOF byte not written -> file.B, file.P",
     "Program.load: rebuild_line_dict skipped for binary formats -> index.after-load, tokfile.memory.B/P",
+    "Program.erase without bytecode.truncate() (old program stays behind the end marker; wave-4 seed) -> history.file.B, history.file.P",
     "Program.merge: `if not line and not cr` -> `if not line` (stop at the first empty line) -> textfile.list, textfile.memory",
     "Program.merge: stop at a line of blanks only -> textfile.list, textfile.memory",
     "Program.merge: last line dropped when the file lacks a final line break -> textfile.list, textfile.memory",
@@ -497,6 +504,154 @@ def check_textfile(case, res):
     return res
 
 
+# ---- session history before SAVE -----------------------------------------------------------
+
+PRIORS = ['typed', 'LOAD-B', 'LOAD-P', 'LOAD-A']
+REPLACES = ['NEW+type', 'LOAD-B', 'LOAD-P', 'LOAD-A', 'DELETE', 'type-over', 'DELETE+MERGE',
+            'CHAIN-B', 'CHAIN-A']
+
+
+def _type_program(s, res, prog):
+    return enter_program(s, [(n, G.line_text(n, a), None, None) for n, a in prog], res)
+
+
+def _save_all(s, res, stem):
+    for fmt in 'BPA':
+        if not run(s, res, b'SAVE "%s%s"' % (stem, fmt.encode()) + FMT_SUFFIX[fmt], 'save'):
+            return False
+    return True
+
+
+def split_binary(fmt, data):
+    """-> (payload up to and excluding trailing 1A bytes, number of 1A bytes) of a B/P file."""
+    body = data[1:]
+    if fmt == 'P':
+        if body[-1:] != b'\x1a':
+            return None, 0
+        body = ref_decrypt(body[:-1]) + b'\x1a'
+    k = len(body) - len(body.rstrip(b'\x1a'))
+    return body.rstrip(b'\x1a'), k
+
+
+def check_history(case, res):
+    """
+    A longer program is in memory first (typed or LOADed), is replaced by a shorter one, and the
+    result is saved: the file must be what a fresh session holding only the final program saves.
+    """
+    prior, repl, fmt = case['prior'], case['replace'], case['fmt']
+    long_p = sorted(case['long'], key=lambda t: t[0])
+    short_p = sorted(case['short'], key=lambda t: t[0])
+    # the lowest line of the short program ends execution at once (CHAIN runs it)
+    short_p[0] = [short_p[0][0], G.canonical([['k', 'END', 0], ['p', ':']] + short_p[0][1])]
+    res.label('prior:' + prior, 'replace:' + repl, 'fmt:' + fmt,
+              'class:%s/%s/%s' % (prior, repl, fmt))
+    sb = harness.Sandbox()
+
+    def sess():
+        return harness.Sess(sandbox=sb)
+    try:
+        # files of both programs from fresh sessions
+        for stem, prog in ((b'L', long_p), (b'S', short_p)):
+            with sess() as s:
+                if not (_type_program(s, res, prog) and _save_all(s, res, stem)):
+                    return res
+        binary_loads = 0
+        with sess() as s:
+            # 1. the earlier, longer program
+            if prior == 'typed':
+                ok = _type_program(s, res, long_p)
+            else:
+                ok = run(s, res, b'LOAD "L%s"' % prior[-1:].encode(), 'load')
+                binary_loads += prior[-1] in 'BP'
+            if not ok:
+                return res
+            # 2. replace it
+            final = dict((n, a) for n, a in short_p)
+            if repl == 'NEW+type':
+                ok = run(s, res, b'NEW', 'new') and _type_program(s, res, short_p)
+            elif repl.startswith('LOAD-'):
+                ok = run(s, res, b'LOAD "S%s"' % repl[-1:].encode(), 'load')
+                binary_loads += repl[-1] in 'BP'
+            elif repl.startswith('CHAIN-'):
+                ok = run(s, res, b'CHAIN "S%s"' % repl[-1:].encode(), 'chain')
+                binary_loads += repl[-1] in 'BP'
+            else:
+                keep = long_p[:1 + case['keep'] % 2]
+                lo = long_p[len(keep)][0]
+                final = dict((n, a) for n, a in keep)
+                if repl == 'type-over':
+                    ok = True
+                    for n, _ in long_p[len(keep):]:
+                        ok = ok and run(s, res, b'%d' % n, 'delete-line')
+                    n0, a0 = keep[0]
+                    ok = ok and _type_program(s, res, [(n0, [['k', 'END', 0]])])
+                    final[n0] = [['k', 'END', 0]]
+                else:
+                    ok = run(s, res, b'DELETE %d-' % lo, 'delete')
+                    if ok and repl == 'DELETE+MERGE':
+                        ok = run(s, res, b'MERGE "SA"', 'merge')
+                        final.update(dict((n, a) for n, a in short_p))
+            if not ok:
+                return res
+            prog = [(n, G.line_tokens(n, final[n]), ('%d ' % n).encode() + G.render(final[n])[1])
+                    for n in sorted(final)]
+            # 3. listing of the final program (independent model) and SAVE
+            listing, o = progio.list_to_file(s, name=b'FINAL.TXT')
+            if progio.listing_lines(listing) != [p[2] for p in prog]:
+                res.fail('history.list', '%s/%s: LIST shows %r, model %r' % (
+                    prior, repl, progio.listing_lines(listing), [p[2] for p in prog]))
+                return res
+            start = progio.program_start(s)
+            img = image([(p[0], p[1]) for p in prog], start)
+            if not run(s, res, b'SAVE "OUT"' + FMT_SUFFIX[fmt], 'save'):
+                return res
+        with open(os.path.join(sb.z, 'OUT.BAS'), 'rb') as f:
+            out = f.read()
+        with open(os.path.join(sb.z, 'FINAL.TXT'), 'wb') as f:
+            f.write(listing)
+        # 4. a fresh session fed the final LIST saves the reference file; another re-loads OUT
+        with sess() as s:
+            if not (run(s, res, b'LOAD "FINAL.TXT"', 'load') and
+                    run(s, res, b'SAVE "REF"' + FMT_SUFFIX[fmt], 'save')):
+                return res
+        with open(os.path.join(sb.z, 'REF.BAS'), 'rb') as f:
+            ref = f.read()
+        res.nt(True)
+        if fmt == 'A':
+            if out != ref:
+                res.fail('history.file.A', '%s/%s: SAVE,A wrote %r, a fresh session %r' % (
+                    prior, repl, out[:200], ref[:200]))
+        else:
+            body, k = split_binary(fmt, out)
+            rbody, rk = split_binary(fmt, ref)
+            if body is None or body != rbody or out[:1] != ref[:1]:
+                n = 0
+                while body is not None and n < len(body) and n < len(rbody) and body[n] == rbody[n]:
+                    n += 1
+                res.fail('history.file.%s' % fmt, '%s/%s: saved file has %d bytes, a fresh session '
+                         'holding the same program writes %d; payloads differ at offset %d: %s vs %s'
+                         % (prior, repl, len(out), len(ref), n,
+                            (body or b'')[max(0, n - 4):n + 12].hex(' '),
+                            rbody[max(0, n - 4):n + 12].hex(' ')))
+            elif body != img:
+                res.fail('history.image.%s' % fmt, '%s/%s: file payload differs from the image model'
+                         % (prior, repl))
+            elif not body.endswith(b'\0\0\0') or k < rk or k > rk + binary_loads:
+                res.fail('history.end-marker.%s' % fmt, '%s/%s: file must end with the 00 00 end '
+                         'marker and %d..%d EOF bytes, has %d' % (prior, repl, rk, rk + binary_loads, k))
+            if k > rk:
+                res.label('extra-eof-after-binary-load')
+        with sess() as s:
+            if run(s, res, b'LOAD "OUT"', 'reload'):
+                again, o = progio.list_to_file(s)
+                if again != listing:
+                    res.fail('history.reload.%s' % fmt, '%s/%s: OUT re-loads as %r, was %r' % (
+                        prior, repl, again, listing))
+    finally:
+        sb.close()
+    return res
+
+
 def check_rawload(case, res):
     """LOAD of a degenerate file must end in a BASIC error or an (empty) program, not escape."""
     data = bytes.fromhex(case['hex'])
@@ -577,6 +732,8 @@ def check_case(case):
         check_rawload(case, res)
     elif u == 'textfile':
         check_textfile(case, res)
+    elif u == 'history':
+        check_history(case, res)
     elif u == 'prog':
         check_program(case, res)
     elif u == 'tokfile':
@@ -673,6 +830,36 @@ def strat_textfile():
                      lines, progio.st_text_fmt(), st.sampled_from(['LOAD', 'MERGE', 'MERGE-over']))
 
 
+def strat_history():
+    body = G.st_line_atoms('advanced', max_len=90, max_statements=3)
+    num = st.one_of(st.integers(0, 65529), st.integers(1, 400).map(lambda n: n * 10))
+    longp = st.lists(st.tuples(num, body).map(list), min_size=8, max_size=22,
+                     unique_by=lambda t: t[0])
+    shortp = st.lists(st.tuples(num, st.one_of(body, st.just([['k', 'BEEP', 0]]))).map(list),
+                      min_size=1, max_size=3, unique_by=lambda t: t[0])
+    ncls = len(PRIORS) * len(REPLACES) * 3
+    return st.integers(0, ncls - 1).flatmap(lambda c: st.builds(
+        lambda lp, sp, keep: {'u': 'history', 'prior': PRIORS[c % 4],
+                              'replace': REPLACES[(c // 4) % len(REPLACES)],
+                              'fmt': 'BPA'[c // (4 * len(REPLACES))], 'long': lp, 'short': sp,
+                              'keep': keep},
+        longp, shortp, st.integers(0, 1)))
+
+
+def gen_history_grid(shard, nshards, tier, seed):
+    """Every (prior, replacement, format) class once with fixed programs."""
+    longp = [[i * 10, [['k', 'PRINT', 0], ['sp', 1], ['s', 'THIS IS LINE NUMBER %d OF A LONGER PROGRAM'
+                                                      % i, True], ['p', ':'], ['v', 'X', 0], ['o', '='],
+                       ['v', 'X', 0], ['o', '+'], ['n', 'b', 10 + i]]] for i in range(1, 30)]
+    shortp = [[10, [['k', 'PRINT', 0], ['sp', 1], ['s', 'HELLO', True]]],
+              [20, [['v', 'A', 0], ['o', '='], ['n', 'd', 1], ['p', ':'], ['k', 'GOTO', 0], ['sp', 1],
+                    ['j', 10]]]]
+    cases = [{'u': 'history', 'prior': p, 'replace': r, 'fmt': f, 'long': longp, 'short': shortp,
+              'keep': k}
+             for k, p in enumerate(PRIORS) for r in REPLACES for f in 'BPA']
+    return cases[shard::nshards]
+
+
 def strat_convert():
     def build(src, dst):
         return st_program(src != 'A', maxlines=6).map(
@@ -705,6 +892,10 @@ def units(tier):
         Unit('textfile', 'hyp', shards=16, examples={'quick': G.scaled(40),
                                                      'thorough': G.scaled(3000)},
              strategy=strat_textfile),
+        Unit('history-grid', 'enum', shards=12, gen=gen_history_grid),
+        Unit('history', 'hyp', shards=16, examples={'quick': G.scaled(20),
+                                                    'thorough': G.scaled(1500)},
+             strategy=strat_history),
         Unit('convert-pairs', 'enum', shards=3, gen=gen_convert_pairs),
         Unit('convert', 'hyp', shards=16, examples={'quick': G.scaled(4), 'thorough': G.scaled(60)},
              strategy=strat_convert, per_case_timeout=120.0),
@@ -728,6 +919,15 @@ REGRESSIONS = [
         [65529, [['v', 'A$', 0], ['o', '='], ['s', '\x1a\xff', True]]]]},
     {'u': 'prog', 'fmt': 'A', 'dev': 'mem', 'lines': [
         [10, [['k', 'PRINT', 0], ['sp', 1], ['n', 's', 15, -1, 0], ['p', ';'], ['n', 'h', 255, 0]]]]},
+    # seeded change: Program.erase did not truncate, the old program stayed behind the end marker
+    {'u': 'history', 'prior': 'typed', 'replace': 'NEW+type', 'fmt': 'B', 'keep': 0,
+     'long': [[i * 10, [['k', 'PRINT', 0], ['sp', 1], ['s', 'LINE %d OF A LONGER PROGRAM' % i, True]]]
+              for i in range(1, 12)],
+     'short': [[10, [['k', 'BEEP', 0]]]]},
+    {'u': 'history', 'prior': 'LOAD-B', 'replace': 'LOAD-P', 'fmt': 'P', 'keep': 0,
+     'long': [[i * 10, [['k', 'PRINT', 0], ['sp', 1], ['s', 'LINE %d OF A LONGER PROGRAM' % i, True]]]
+              for i in range(1, 12)],
+     'short': [[10, [['k', 'BEEP', 0]]]]},
     # seeded change: the text loader stopped at the first empty line
     {'u': 'textfile', 'cmd': 'LOAD', 'lines': [
         [30, [['k', 'PRINT', 0], ['sp', 1], ['n', 'd', 3]], None],
